@@ -263,6 +263,11 @@ def shard(i, n, count):
     for j in range(i, count, n):
         r = rng(PROP, 'project', j)
         proj = projects.generate(r, all_root=(j % 5 == 0))
+        # unusual but legal file names: a name starting with a dot, an upper-case name, a name with a dash (nobody imports them)
+        if j % 3 == 1 and len(proj['files']) <= 4:
+            odd = [('cfg/.defaults.mamba', 'dfl'), ('.top.mamba', 'tpd'), ('pkg/Upper_Case.mamba', 'upc'), ('pkg/with-dash.mamba', 'wdh'), ('deep/.h/inner.mamba', 'hdi')][(j // 3) % 5]
+            proj = dict(proj, files=proj['files'] + [(odd[0], f'def {odd[1]}_zq: Int := {j % 9}\nprint({odd[1]}_zq)\n')])
+            part.count('projects-with-odd-file-name')
         eval_project(w, part, proj, r, f'project:{j}', annotate=(j % 2 == 0))
         part.count('projects')
         if j % 7 == 0:
